@@ -104,7 +104,11 @@ def _component(draw, s, models, kinds):
     name = draw(st.sampled_from(models))
     comp = {"kind": draw(st.sampled_from(kinds)), "model": name, "params": _params(draw, name, s)}
     if comp["kind"] == "point":
-        comp["grid"] = [draw(_lg(1e-6, 1e-3)), draw(_lg(1e4, 1e7)), draw(st.integers(20, 120))]
+        # the first data pressure is usually far below every partial pressure; in 1 of 5 point isotherms it is not, so
+        # that fictitious pressures below the measured range occur (the library refuses there, or - if it answers - the
+        # answer must obey the equations with the Henry continuation of the data)
+        lo = draw(_lg(0.05, 2.0)) if draw(st.sampled_from([False, False, False, False, True])) else draw(_lg(1e-6, 1e-3))
+        comp["grid"] = [lo, draw(_lg(1e4, 1e7)), draw(st.integers(20, 120))]
         comp["prime"] = draw(st.booleans())
     return comp
 
